@@ -159,4 +159,35 @@ CHECKS = {
                 "(required despite a default, Union converter, one-member Literal, ...). Trusted: Lean kernel + 3 axioms, the exec harness.",
         "technique": "Lean 4 proof (closed forms of the emitters on the executable domain + denotational semantics) + exec-based correspondence",
     },
+    "C17": {
+        "text": "A translator regenerates on every run the table of every dynamic-evaluation / dynamic-import / write / process / network / unsafe-deserialisation "
+                "call site of the non-test code (digest covers the call, its guards and one hop of data flow); a decide table theorem says every site is "
+                "literal-only, constant import, safe YAML, an explicit opt-in, the named output write, or the single doc-derived eval site. For that site a "
+                "safe-by-type faithful port of parse_adhoc_doc_for_typ proves, for every doc/name/flag, that every character of the evaluated string is in an "
+                "alphabet without parentheses, underscore, '=' or ':' (no call syntax, no dunder). Tied to the code by exact correspondence on adversarial "
+                "descriptions and in-situ captured calls, and the property itself is observed under sys.addaudithook in child processes on hostile modules.",
+        "note": "Partial: benignness of attribute access / operators on objects reachable from the module globals is observed, not proved. 1 known finding "
+                "(sync rewrites the truth file). Trusted: Lean kernel + 3 axioms, the ast translator (one hop of data flow), the audit-hook oracle.",
+        "technique": "translator-regenerated site table (decide) + Lean 4 proof by construction (subtype-carried alphabet invariant) + audit-hook oracle",
+    },
+    "C20": {
+        "text": "Lean theorems over an effect-trace model of exmod / exmod_single_folder / emit_file_on_hierarchy / _emit_symbol / _create_sqlalchemy_mod on an "
+                "abstract file system (string-level posixpath port): with dry_run every effect is a print and the file system is unchanged, for every tree and "
+                "configuration (full); a closed blacklist/whitelist gate yields an empty trace (full); confinement under the output directory is proved on an "
+                "explicit decidable domain and proved FALSE outside it on three witnesses (known findings). Tied to the real CLI run under an audit hook in a "
+                "forked child: ordered mkdir/open list, printed lines, exception class and final tree must equal the model's.",
+        "note": "Partial for confinement (6 known findings: source __init__ overwritten, root escape, __init__ above output, blacklist spellings). find_spec, "
+                "find_packages, the per-symbol emitters, black and the OS are parameters. Trusted: Lean kernel + 3 axioms, the audit-hook harness.",
+        "technique": "Lean 4 proof (Hoare-style reasoning over an effect-trace monad) + audit-hook/snapshot correspondence with the real CLI",
+    },
+    "C13": {
+        "text": "Lean theorems over a faithful port of annotate_ancestry / find_in_ast / RewriteAtQuery / emit_arg / it2literal / sync_property on the shared flat "
+                "AST: frame (the rewritten module differs from the original in exactly one statement or one parameter - a one-hole context - for every module, "
+                "path and replacement), slot (takes the input's name and annotation, wrapped by the template; under --input-eval keeps its name and gets the "
+                "Literal), alignment (defaults keep their length, at most the right-aligned own entry changes, self/cls offset cancels), with negations proved on "
+                "witnesses where the code deviates. Tied to the code by comparing the output file's AST after real sync_properties runs on temp files.",
+        "note": "Partial where the statement is false of the code (10 defects / 13 finding lines: find_in_ast ignores the function name, phantom default, module "
+                "docstring re-indent, ...). Docstrings compared modulo layout (ast.unparse+black). Trusted: Lean kernel + 3 axioms, the harness.",
+        "technique": "Lean 4 proof (mutual structural induction with a one-hole-context invariant) + AST differential correspondence",
+    },
 }
